@@ -214,7 +214,7 @@ def s_index(ip, st, fr, name, args, c, site):
     return [([ok], k2), ([T.mk_not(ok)], panic(('slice-out-of-bounds', name, fr.fn.path, site)))]
 
 
-@S('core::slice::<impl [T]>::get')
+@S('core::slice::<impl [T]>::get', 'core::slice::<impl [T]>::get_mut')
 def s_get(ip, st, fr, name, args, c, site):
     r, cont = container_ref(ip, st, args[0])
     idx = args[1]
@@ -225,7 +225,7 @@ def s_get(ip, st, fr, name, args, c, site):
 
         def k(ip, s2, f2, a2):
             r2, _ = container_ref(ip, s2, a2[0])
-            return some(X.Ref(r2.cell, r2.path + (('i', a2[1]),)))
+            return some(X.Ref(r2.cell, r2.path + (('i', a2[1]),), r2.mut))
         return [([ok], k), ([T.mk_not(ok)], lambda *a: none())]
     lo, hi = rb
     ok = T.mk_and(T.mk_cmp('le', lo, hi), T.mk_cmp('le', hi, n))
